@@ -1008,11 +1008,14 @@ impl Value {
         K: Into<Value>,
         V: Into<Value>,
     {
-        Value::from_object(
-            iter.into_iter()
-                .map(|(key, value)| (key.into(), value.into()))
-                .collect::<ValueMap>(),
-        )
+        // Insert one by one: collecting into a `BTreeMap` de-duplicates adjacent
+        // keys with `==`, which is not the `Ord` the map is keyed by (it keeps two
+        // NaN keys and drops one of `true` and `1`).
+        let mut map = ValueMap::new();
+        for (key, value) in iter {
+            map.insert(key.into(), value.into());
+        }
+        Value::from_object(map)
     }
 
     /// Extracts a contained error.
